@@ -166,7 +166,6 @@ func isCLIContext(t types.Type) bool {
 	return ok && n.Obj().Name() == "Context" && n.Obj().Pkg() != nil && n.Obj().Pkg().Path() == "github.com/urfave/cli/v2"
 }
 
-
 func (mw *modeWalker) val(fr *mFrame, pt *mPath, v ssa.Value) mval {
 	switch x := v.(type) {
 	case *ssa.Const:
